@@ -272,7 +272,7 @@ def _plan_c0516(tier, seed):
 
 PLANS["C05"] = _plan_c0516
 PLANS["C16"] = _plan_c0516
-FLOORS["C05"] = {"ops_that_changed_bytes": 50_000, "distinct_nontrivial": 3000}
+FLOORS["C05"] = {"ops_that_changed_bytes": 50_000, "distinct_nontrivial": 3000, "harvest_litmus_control_lost_writes": 1}
 FLOORS["C16"] = {"ops_that_changed_bytes": 50_000, "distinct_nontrivial": 3000}
 
 # ----------------------------------------------------------------------------------------------
@@ -507,7 +507,7 @@ def aux_c06(tier, seed):
 
 
 AUX["C06"] = aux_c06
-FLOORS["C06"] = {"judged_single_access_transfers": 3000, "tearing_reads": 1_000_000, "distinct_nontrivial": 10_000}
+FLOORS["C06"] = {"judged_single_access_transfers": 3000, "tearing_reads": 1_000_000, "distinct_nontrivial": 10_000, "ordering_litmus_control_forbidden_outcomes": 1}
 
 # ----------------------------------------------------------------------------------------------
 prop("C08", level="model_checking",
@@ -578,8 +578,8 @@ FLOORS["C11"] = {"stress_events": 50_000, "snapshots_held_across_replacements": 
 _ROUND6 = {
     "C03": "big file-backed region: a write whose interior pages equal the current contents while only its first / last bytes differ.",
     "C04": "almost-zero transfers: lengths 4095..8199, 8 local x 8 guest misalignments: a buffer that is zero except one byte (each of its first 9 and last 17 positions) written over zero memory, and an all-zero buffer written over memory that is zero except one byte.",
-    "C05": "regions whose bitmap object was enlarged or cloned before being handed to the region.",
-    "C06": "store-buffering ordering litmus on real threads (1.5 x 10^6 rounds): two threads each store through the sequentially consistent guest store and then load the other's location; both loads returning the old value is a violation.",
+    "C05": "regions whose bitmap object was enlarged or cloned before being handed to the region; the harvest litmus has a harness-side CONTROL (a marker that skips the read-modify-write when the bit reads as set) which must lose at least one write per run (coverage floor), otherwise the run is inconclusive.",
+    "C06": "store-buffering ordering litmus on real threads (1.5 x 10^6 rounds): two threads each store through the sequentially consistent guest store and then load the other's location; both loads returning the old value is a violation; a harness-side CONTROL with Release/Acquire on plain atomics runs a third as many rounds and must show the forbidden outcome at least once (coverage floor), otherwise the run is inconclusive.",
     "C07": "guest memories with 17 regions (lowest above address 0) and 65 sparse regions up to the top of the address space.",
     "C08": "programs in which a mark completes a word (63 of 64 bits dirty at the start) against harvesters and resets.",
     "C09": "page-count thresholds 2^12, 2^16, 2^18, 2^18 + 64, 2^20: bitmaps created just below / at / above each and small marked bitmaps ENLARGED across it, followed by a full read-out.",
